@@ -33,7 +33,8 @@ EXE = dict(exe="driver_tt", src="DriverTT.lean")
 NEXT_BUDGET = 50_000  # line events per next(): two traversals and one evaluation of a tree of <= 13 nodes need < 1000
 
 # names: one-letter, multi-letter, mixed case, digits, underscore, non-ASCII – Python sorts str by code point
-NAME_POOL = ["a", "b", "c", "d", "e", "B", "Z", "A", "ab", "aa", "a1", "b0", "_x", "zz", "é", "ä", "ß", "Ab", "a_", "E"]
+NAME_POOL = ["a", "b", "c", "d", "e", "B", "Z", "A", "ab", "aa", "a1", "b0", "_x", "zz", "é", "ä", "ß", "Ab", "a_", "E",
+             "x2", "x10", "x9", "a10", "a2", "a02", "x1y", "x01"]  # digit runs: string order is not numeric order
 
 # foreign nodes for the malformed stream: (description, constructor taking the list of variable objects)
 FOREIGN = [
